@@ -1800,6 +1800,11 @@ def r2_groups(rng, gid0, inputs, dicts, tiny, quick):
                 pending = True
             elif r < 0.93:
                 fid += 1
+                if pending:
+                    # a one-shot call re-initialises the internals under an open streaming frame; continuing that frame
+                    # afterwards is a misuse (it dereferences the released input buffer): the walk closes the session first
+                    g.lines.append("reset 0 1")
+                    pending = False
                 g.lines.append("F 0 %d %d %d 0 0 0 cctx %d 0" % (fid, x[0], x[1], rng.choice([1, 3])))
             else:
                 g.lines.append("G 0 %d %d" % (x[0], x[1]))
